@@ -99,6 +99,54 @@ def oracle_value(res, v, spec_hex=None):
     return enc
 
 
+def ctor_forms(v, rng):
+    """other natural constructor inputs that stand for the same leaf value v"""
+    t, es = v
+    out = []
+    if t in K.INTS:
+        out.append(list(es))
+        if len(es) == 1:
+            out.append(es[0])
+    elif t in ("F4", "F8"):
+        out.append([K.b2f(e) for e in es])
+        if len(es) == 1:
+            out.append(K.b2f(es[0]))
+    elif t == "B":
+        out += [bytes(es), list(es), [bytes([e]) for e in es]]
+        if es:
+            k = rng.below(len(es))
+            out.append([bytes(es[:k])] + list(es[k:]))
+            out.append(list(es[:k]) + [bytes(es[k:])])
+        if len(es) == 1:
+            out.append(es[0])
+        if all(e < 128 for e in es):
+            out.append(bytes(es).decode("ascii"))
+    elif t == "BOOLEAN":
+        out += [[bool(e) for e in es], [int(e) for e in es]]
+        if len(es) == 1:
+            out += [bool(es[0]), int(es[0])]
+    elif t == "A":
+        out += ["".join(chr(e) for e in es), bytes(es)]
+    elif t == "J":
+        out += ["".join(chr(e) for e in es), bytes(K.jis_byte(e) for e in es)]
+    return out
+
+
+def oracle_ctor(res, v, rng):
+    """an Item built from any natural input form of v holds v"""
+    t = v[0]
+    for form in ctor_forms(v, rng):
+        case = {"kind": "ctor", "val": js(v), "form": repr(form)[:300]}
+        try:
+            it = K.ITEMCLS[t](form)
+        except Exception as exc:  # noqa: BLE001
+            res.violate("ctor-raises", f"{t} item refused an input standing for a value of its type: {type(exc).__name__}: {exc}", case)
+            continue
+        held = K.val_of_item(it)
+        if held != v:
+            res.violate("holds-other-value", "the item does not hold the value it was built from", case, K.show_val(v)[:200], K.show_val(held)[:200])
+
+
 def oracle_decode(res, v, data: bytes, ref_val=None):
     """`data` is a valid E5 encoding of v (any number of length bytes): decode, re-encode = canonical"""
     case = {"kind": "decode", "val": js(v), "data": data.hex()}
@@ -167,6 +215,9 @@ def replay_case(res, case):
     k = case.get("kind")
     if k == "value":
         oracle_value(res, unjs(case["val"]))
+    elif k == "ctor":
+        oracle_ctor(res, unjs(case["val"]), hlib.Rng(1))
+        oracle_ctor(res, unjs(case["val"]), hlib.Rng(2))
     elif k == "decode":
         oracle_decode(res, unjs(case["val"]), bytes.fromhex(case["data"]))
     elif k == "from":
@@ -375,6 +426,8 @@ def main():
     encoded = []
     for i, v in enumerate(vals):
         enc = oracle_value(res, v, spec_of.get(id(v)))
+        if v[0] != "L" and len(v[1]) <= 300:
+            oracle_ctor(res, v, rng)
         res.count(("val", K.show_val(v)[:4000]), sample={"op": "item value", "val": K.show_val(v)[:100]} if i % 113 == 0 else None)
         res.bump("top_type", v[0])
         res.bump("depth", K.depth_of(v))
@@ -387,7 +440,7 @@ def main():
             answers.append("ok " + hlib.hexs(enc))
             cases.append(K.show_val(v)[:300])
             lines.append("item value " + K.send_val(v))
-            answers.append("ok " + K.show_py(K.py_of_real(K.build_item(v).value)))
+            answers.append(K.impl(lambda v=v: K.show_py(K.py_of_real(K.build_item(v).value))))
         else:
             import zlib
             cases.append({"type": v[0], "n": len(v[1])})
@@ -520,13 +573,17 @@ def main():
         n = 16777215
         for t in ("B", "A"):
             body = bytes([0x41]) * n
-            it = K.ITEMCLS[t](body if t == "B" else body.decode("latin-1"))
-            enc = it.encode()
             want = K.own_header(K.CODE[t], n) + body
+            try:
+                it = K.ITEMCLS[t](body if t == "B" else body.decode("latin-1"))
+                enc = it.encode()
+                back = I.Item.decode(enc).encode()
+            except Exception as exc:  # noqa: BLE001
+                res.violate("encode-raises", f"{t} with 16777215 bytes: {type(exc).__name__}: {exc}", {"kind": "big", "type": t, "n": n})
+                continue
             if enc != want:
                 res.violate("encode-not-E5", f"{t} with 16777215 bytes: Item.encode() differs from the E5 byte string", {"kind": "big", "type": t, "n": n})
-            back = I.Item.decode(enc)
-            if back.encode() != want:
+            if back != want:
                 res.violate("reencode-not-canonical", f"{t} with 16777215 bytes does not decode / re-encode", {"kind": "big", "type": t, "n": n})
             try:
                 K.ITEMCLS[t](body + b"A" if t == "B" else (body + b"A").decode("latin-1")).encode()
